@@ -78,7 +78,7 @@ func sameFloat(a float64, b float64) bool { return a == b || (a != a && b != b) 
 
 /*@ template for (self *Interpreter) *
     except expression, infixHelper
-    serves C09
+    serves C09, C04
     assume-safety
     assumepre expression, infixHelper, IndexValue, IsEqual
     dyncall-preserves self.callStackSize, self.callStackLimitSize
